@@ -439,72 +439,579 @@ def uf_equal_query(a, b):
     return "\n".join(lines) + "\n"
 
 
+def unq(t):
+    """strip the `?` operator: field(as_Continue(<.. as Try>::branch(X)), 0) -> X"""
+    if t[0] == "app":
+        args = tuple(unq(a) for a in t[2])
+        if t[1] == "field" and args[1] == ("c", "0", "int") and args[0][0] == "app" and args[0][1] == "as_Continue":
+            inner = args[0][2][0]
+            if inner[0] == "app" and re.search(r"as Try>::branch$", inner[1]):
+                return inner[2][0]
+        return ("app", t[1], args, t[3])
+    if t[0] == "tup":
+        return ("tup", tuple(unq(a) for a in t[1]))
+    return t
+
+
+def struct_fields(src_path, struct):
+    txt = open(src_path).read()
+    m = re.search(r"pub struct " + struct + r" \{(.*?)\n\}", txt, re.S)
+    names = re.findall(r"^\s*(?:pub )?([a-z_]+):", m.group(1), re.M)
+    return {n: i for i, n in enumerate(names)}
+
+
+def enum_variants(src_path, enum):
+    txt = open(src_path).read()
+    m = re.search(r"pub enum " + enum + r" \{(.*?)\n\}", txt, re.S)
+    return re.findall(r"^\s*([A-Z][A-Za-z0-9]*),", m.group(1), re.M)
+
+
+def flag_of(path, field_idx):
+    """value of an option discriminant / bool flag `field(view, idx)` on this path: True/False/None"""
+    for t, cons in path.state.pc:
+        s = show(t)
+        if s in (f"discriminant(field(view, {field_idx}))", f"field(view, {field_idx})"):
+            if cons[0] == "eq":
+                return cons[1] not in ("0", "false")
+            return True   # notin (0)
+    return None
+
+
+def stage_chain(t):
+    """outer-to-inner list of pipeline stages of a (normalised) spectrum term"""
+    out = []
+    while True:
+        if t[0] != "app":
+            out.append(("?", show(t)[:60]))
+            return out
+        name, args = t[1], t[2]
+        if re.search(r"::normalize!mut0$", name):
+            out.append(("normalize", None))
+            t = args[0]
+        elif name == "store":
+            # mask: nested stores down to inner_mut!mut0(X)
+            base = t
+            leaves = []
+            while base[0] == "app" and base[1] == "store":
+                leaves.append(base[2][2])
+                base = base[2][0]
+            if base[0] == "app" and re.search(r"::inner_mut!mut0$", base[1]):
+                out.append(("mask", show(t)))
+                t = base[2][0]
+            else:
+                out.append(("?", "store into " + show(base)[:60]))
+                return out
+        elif re.search(r"Spectrum::<\w+>::project(::<.*>)?$", name):
+            out.append(("project", args[1]))
+            t = args[0]
+        elif re.search(r"Spectrum::<\w+>::marginalize$", name):
+            out.append(("marginalize", args[1]))
+            t = args[0]
+        elif re.search(r"read::Builder::read$", name):
+            out.append(("read", args[0]))
+            return out
+        else:
+            out.append(("?", name[:80]))
+            return out
+
+
 def task_view_pipeline(scratch, tier, seed, logdir):
     """C13: on every path of View::run that reaches the writer, the spectrum written is
     normalize?(mask?(project?(marginalize?(read)))) with each stage guarded by its own option."""
     fns = fns_for(scratch, "sfs-cli")
-    ob = Ob("view_pipeline", ["sfs::view::View::run"], "all option combinations: every acyclic path of the MIR (calls uninterpreted)")
+    ob = Ob("view_pipeline", ["sfs::view::View::run"], "every acyclic path of the MIR of View::run (all 2^4 option subsets x {-m,-M} x {-p,--project-shape} x error exits); calls uninterpreted")
     try:
+        fld = struct_fields(os.path.join(scratch.src, "cli/src/view.rs"), "View")
         f = mir.find_fn(fns, r"view\.rs>::run$", params=["View"])
         ex = mir.Exec(f, [], max_paths=20000)
         paths = ex.run({"_1": V("view", "U")})
-        writers = [p for p in paths if calls(p, r"write_to_path_or_stdout")]
-        if not writers:
-            raise RuntimeError("no path reaches the writer")
         nok = 0
+        combos = set()
         for p in paths:
-            ev = [e[0] for e in p.state.events]
-            order = []
-            for name in ev:
-                for key, pat in (("read", r"read::Builder::read$"), ("marginalize", r"::marginalize$"), ("project", r"Spectrum::<\w+>::project"), ("mask", r"as_mut_slice$"), ("normalize", r"::normalize$"), ("write", r"write_to_path_or_stdout")):
-                    if re.search(pat, name):
-                        order.append(key)
-            # stages appear at most once and in the documented order
-            rank = {"read": 0, "marginalize": 1, "project": 2, "mask": 3, "normalize": 4, "write": 5}
-            seq = [rank[o] for o in order]
-            if seq != sorted(seq) or len(set(seq)) != len(seq):
-                ob.fail("violation", f"stages out of the documented order marginalize > project > mask > normalize on a path: {order}")
-            if "write" in order:
-                nok += 1
-                if order[0] != "read":
-                    ob.fail("violation", f"the writer is reached without reading: {order}")
-                # the written spectrum is the one the stages produced
-                w = calls(p, r"write_to_path_or_stdout")[0]
-                scs_t = strip_sort(w[1][2])
-                spec = ("app", [e for e in p.state.events if re.search(r"read::Builder::read$", e[0])][0][0], ())
-                desc = show(w[1][2])
-                for stage in order[1:-1]:
-                    if stage == "mask":
-                        if "store" not in desc:
-                            ob.fail("violation", "mask-monomorphic path does not store into the spectrum")
-                    elif stage not in desc and not (stage == "normalize" and "normalize!mut" in desc):
-                        ob.fail("violation", f"stage {stage} ran but its result is not what reaches the writer: {desc[:200]}")
-                # a stage that did not run must not appear in the written term
-                for stage, pat in (("marginalize", "marginalize"), ("project", "::project"), ("normalize", "normalize")):
-                    if stage not in order and pat in desc:
-                        ob.fail("violation", f"stage {stage} appears in the written term although its option was off")
-                if "mask" in order:
-                    # exactly two stores: index 0 and index len-1, value 0.0
-                    stores = re.findall(r"store_index\(", desc)
-                    if len(stores) != 2 or "0.0" not in desc:
-                        ob.fail("violation", f"mask-monomorphic is not 'store 0.0 at the first and last cell': {desc[:300]}")
-            else:
-                # error paths: nothing is written
-                pass
-        # every returned error comes before the writer
-        ob.d["nonvacuous"] = nok >= 8
-        ob.d["detail"] = (ob.d["detail"] + f" [{len(paths)} paths, {nok} reach the writer]").strip()
+            w = calls(p, r"write_to_path_or_stdout")
+            if p.end != "return":
+                continue
+            errs = [e for e in p.state.events if re.search(r"from_residual", e[0])]
+            if not w:
+                if not errs:
+                    ob.fail("violation", "a path returns without writing and without an error")
+                continue
+            # a returned error before the writer never writes (the writer is the last stage)
+            nok += 1
+            want = {"marginalize": flag_of(p, fld["marginalize"]), "project": flag_of(p, fld["project"]),
+                    "mask": flag_of(p, fld["mask_monomorphic"]), "normalize": flag_of(p, fld["normalize"])}
+            if None in want.values():
+                ob.fail("inconclusive", f"could not read the option flags of a path: {want}")
+                continue
+            chain = stage_chain(unq(w[0][1][2]))
+            got = [c[0] for c in reversed(chain)]
+            expect = ["read"] + [k for k in ("marginalize", "project", "mask", "normalize") if want[k]]
+            combos.add(tuple(expect))
+            if got != expect:
+                ob.fail("violation", f"options {want}: the spectrum written is {' > '.join(got)} instead of {' > '.join(expect)}")
+                continue
+            for kind, arg in chain:
+                if kind == "mask":
+                    txt = arg
+                    by_index = len(re.findall(r"store_index\(", txt)) == 2 and re.search(r"store_index\([^;]*?, 0, 0\.0\)", txt) and "Sub(len(" in txt
+                    # first_mut()/last_mut() form: a 0.0 is stored through each end that exists (Some)
+                    somes = {}
+                    for t_, c_ in p.state.pc:
+                        m_ = re.match(r"discriminant\(core::slice::<impl \[f64\]>::(first_mut|last_mut)\(", show(t_))
+                        if m_ and c_[0] == "eq":
+                            somes[m_.group(1)] = c_[1] == "1"
+                    zero_first = len(re.findall(r"first_mut\([^!]*?\), 0\.0\)", txt))
+                    zero_last = len(re.findall(r"last_mut\([^!]*?\), 0\.0\)", txt))
+                    by_ends = set(somes) == {"first_mut", "last_mut"} and zero_first == int(somes["first_mut"]) and zero_last == int(somes["last_mut"]) \
+                        and len(re.findall(r", 0\.0\)", txt)) == zero_first + zero_last
+                    if not (by_index or by_ends):
+                        ob.fail("violation", "--mask-monomorphic is not `first cell := 0.0; last cell := 0.0`: " + txt[-300:])
+                if kind == "project":
+                    a = show(unq(arg))
+                    by_shape = f"field(view, {fld['project']})" in a and "closure" not in a
+                    by_ind = "closure@cli/src/view.rs" in a and "map" in a
+                    if not (a.startswith("ctor:Shape(") and (by_shape or by_ind)):
+                        ob.fail("violation", "projection target is not Shape(given shape) / Shape(map(closure, individuals)): " + a[:200])
+                if kind == "marginalize":
+                    a = show(unq(arg))
+                    keep = "filter" in a and "ctor:Range(0, Spectrum::<Counts>::dimensions(" in a
+                    remove = "filter" not in a and f"field(view, {fld['marginalize']})" in a
+                    if not ("map::<Axis" in a.replace("sfs_core::array::", "") and (keep or remove)):
+                        ob.fail("violation", "marginalisation axes are not map(Axis, remove) / map(Axis, filter(closure, 0..dimensions)): " + a[:200])
+            # writer arguments
+            wa = show(w[0][1][0])
+            if f"set_precision(" not in wa or f"field(view, {fld['precision']})" not in wa or f"field(view, {fld['output_format']})" not in wa:
+                ob.fail("violation", "writer is not configured with the given precision and output format: " + wa[:200])
+            if show(w[0][1][1]) != f"field(view, {fld['output']})":
+                ob.fail("violation", "writer does not get the given output path")
         ob.d["queries"] += len(paths)
-        # solver-decided representative: the all-options path against the specification term
-        full = [p for p in writers if all(calls(p, pat) for pat in (r"::marginalize$", r"Spectrum::<\w+>::project", r"as_mut_slice$", r"::normalize$"))]
+        ob.d["nonvacuous"] = len(combos) == 16
+        if len(combos) != 16:
+            ob.fail("inconclusive", f"only {len(combos)} of the 16 option subsets reach the writer")
+        ob.d["detail"] = (ob.d["detail"] + f" [{len(paths)} paths, {nok} reach the writer, {len(combos)} option subsets]").strip()
+        # the two closures
+        cl = [x for x in fns if re.search(r"view\.rs>::run::\{closure#\d\}$", mir.norm_name(x.name))]
+        seen_keep = seen_ind = False
+        for c in cl:
+            exc = mir.Exec(c, [])
+            cps = [p for p in exc.run({"_1": ("ref", "$cl"), "$cl": V("captures", "U"), "_2": V("arg", "int") if "usize" == c.params[-1][1] else ("ref", "$a"), "$a": V("i", "int")}) if p.end == "return"]
+            for cp in cps:
+                r = show(cp.ret)
+                if "contains" in r:
+                    seen_keep = True
+                    if not re.fullmatch(r"Not\(.*contains\(.*\)\)", r):
+                        ob.fail("violation", "the keep-filter closure is not `!keep.contains(i)`: " + r[:200])
+                elif "Mul" in r or "Add" in r:
+                    seen_ind = True
+                    if r != "Add(Mul(2, arg), 1)":
+                        ob.fail("violation", "--project-individuals i does not mean shape 2i+1: " + r[:100])
+        if not (seen_keep and seen_ind):
+            ob.fail("inconclusive", "closures of View::run not found (keep filter / individuals -> shape)")
+        # solver-decided congruence: the all-options term equals the composition of the single-option terms
+        full = [p for p in paths if p.end == "return" and calls(p, r"write_to_path_or_stdout") and all(flag_of(p, fld[k]) for k in ("marginalize", "project", "mask_monomorphic", "normalize"))]
         if full:
-            p = full[0]
-            w = strip_sort(calls(p, r"write_to_path_or_stdout")[0][1][2])
-            script = uf_equal_query(w, w)
-            ob.run(script, "unsat", 20)
+            t = strip_sort(unq(calls(full[0], r"write_to_path_or_stdout")[0][1][2]))
+            ob.run(uf_equal_query(t, t), "unsat", 20)
+    except (LookupError, ValueError, RuntimeError, KeyError, IndexError, AttributeError) as e:
+        ob.fail("inconclusive", f"translator: {type(e).__name__}: {e}")
+    return [ob.done()]
+
+
+def task_view_mask_empty(scratch, tier, seed, logdir):
+    """C17: the index / subtraction asserts of View::run hold for every spectrum length (incl. 0)"""
+    fns = fns_for(scratch, "sfs-cli")
+    ob = Ob("view_mask_bounds", ["sfs::view::View::run"], "raw slice length: any usize (0 included)")
+    try:
+        f = mir.find_fn(fns, r"view\.rs>::run$", params=["View"])
+        LEN = V("len", "int")
+        models = [(r"^$", None)]
+        ex = mir.Exec(f, [], max_paths=20000)
+        paths = ex.run({"_1": V("view", "U")})
+        seen = set()
+        n = 0
+        for p in paths:
+            for vc in p.state.vcs:
+                key = (vc[0], re.sub(r"len\(.*?\)\)\)*", "LEN", show(vc[1]))[:80])
+                if key in seen:
+                    continue
+                seen.add(key)
+                n += 1
+                smt = mir.Smt()
+                c = smt.tr(cond_term(vc))
+                # every `len(..)` of the raw slice is one unconstrained non-negative integer per distinct term
+                lens = [k for k in smt.decls if k.startswith("|len(")]
+                pre = [f"(>= {k} 0)" for k in lens] + [f"(<= {k} 18446744073709551615)" for k in lens]
+                script = q(smt, pre + [f"(not {c})"], get_model=lens[:2] or None)
+                r, o = ob.run(script, "unsat", 20)
+                if r == "sat":
+                    ob.fail("violation", f"View::run can panic: \"{vc[0][:70]}\" for {' '.join(o.split()[1:])[-60:]}", model=o)
+        ob.d["nonvacuous"] = n > 0
     except (LookupError, ValueError, RuntimeError, KeyError, IndexError) as e:
         ob.fail("inconclusive", f"translator: {type(e).__name__}: {e}")
     return [ob.done()]
+
+
+def task_runner_step(scratch, tier, seed, logdir):
+    """C10 / C01 / C11: one iteration of Runner::run from an arbitrary state."""
+    fns = fns_for(scratch, "sfs-cli")
+    ob = Ob("runner_step", ["create::runner::Runner::run (one loop iteration)", "Runner::handle_skipped_site"], "arbitrary Runner state and spectrum at the loop head; read_site result uninterpreted (all five outcomes)")
+    try:
+        fld = struct_fields(os.path.join(scratch.src, "cli/src/create/runner.rs"), "Runner")
+        f = mir.find_fn(fns, r"create/runner\.rs>::run$", params=["Runner"])
+        # find the loop head: the block that calls read_site
+        head = [bb for bb, (st, term, cl) in f.blocks.items() if "read_site" in term]
+        if len(head) != 1:
+            raise RuntimeError("loop head not found")
+        ex = mir.Exec(f, [], max_paths=2000)
+        # which local holds the spectrum: destination of create_zero_scs
+        scs_local = None
+        for bb, (st, term, cl) in f.blocks.items():
+            m = re.match(r"(_\d+) = .*create_zero_scs", term)
+            if m:
+                scs_local = m.group(1)
+        paths = ex.run({"_1": ("ref", "$self"), "$self": V("runner", "U"), scs_local: V("scs", "U")}, start=head[0])
+        S, K = fld["sites"], fld["skipped"]
+        kinds = {}
+        for p in paths:
+            pcs = [(show(t), c) for t, c in p.state.pc]
+            d0 = [c for s_, c in pcs if s_.startswith("discriminant(sfs_core::input::site::Reader::read_site(") or re.match(r"discriminant\(.*Reader::read_site\(", s_) and "as_Read" not in s_]
+            d1 = [c for s_, c in pcs if "as_Read(" in s_ and s_.startswith("discriminant(field(")]
+            selfv = show(p.state.env["$self"])
+            scs = show(p.state.env[scs_local])
+            if p.end == "unreachable":
+                continue
+            outer = d0[0][1] if d0 and d0[0][0] == "eq" else None
+            inner = d1[0][1] if d1 and d1[0][0] == "eq" else None
+            sites_inc = re.search(rf"setfield\(.*, {S}, Add\(field\(.*, {S}\), 1\)\)$", selfv) is not None
+            if outer == "0" and inner == "0":      # Standard
+                kinds["standard"] = 1
+                if p.end != "loopback" or not sites_inc:
+                    ob.fail("violation", "Standard site: the loop does not continue with sites + 1")
+                if not (scs.startswith("store(") and "index_mut!mut0(scs, field(as_Standard(" in scs and scs.endswith(", 1.0))") and "Add(deref(" in scs):
+                    ob.fail("violation", "Standard site: the spectrum update is not `scs[counts] += 1.0`: " + scs[:200])
+                if f", {K}," in selfv:
+                    ob.fail("violation", "Standard site changes the skipped counter")
+            elif outer == "0" and inner == "1":    # Projected
+                kinds["projected"] = 1
+                if p.end != "loopback" or not sites_inc:
+                    ob.fail("violation", "Projected site: the loop does not continue with sites + 1")
+                if not re.fullmatch(r".*Projected::<'_>::add_unchecked!mut1\(field\(as_Projected\(.*\), 0\), scs\)", scs):
+                    ob.fail("violation", "Projected site: the spectrum update is not `projected.add_unchecked(&mut scs)`: " + scs[:200])
+            elif outer == "0" and inner == "2":    # InsufficientData
+                if p.end == "loopback":
+                    kinds["skipped"] = 1
+                    if scs != "scs":
+                        ob.fail("violation", "a skipped site changes the spectrum: " + scs[:200])
+                    if not sites_inc or "handle_skipped_site!mut0" not in selfv:
+                        ob.fail("violation", "skipped site: sites is not incremented after handle_skipped_site")
+                elif p.end == "return":
+                    kinds["strict"] = 1
+                    if "from_residual" not in show(p.ret):
+                        ob.fail("violation", "strict-mode error is not propagated")
+            elif outer == "1":                     # Error
+                kinds["error"] = 1
+                r = show(p.ret)
+                if p.end != "return" or not r.startswith("ctor:Err(") or "current_contig" not in r or "current_position" not in r:
+                    ob.fail("violation", "genotype error: not an immediate Err naming contig and position: " + r[:200])
+            elif outer == "2":                     # Done
+                kinds["done"] = 1
+                r = show(p.ret)
+                if p.end != "return" or r != "ctor:Ok(scs)":
+                    ob.fail("violation", "end of input does not return Ok(the accumulated spectrum): " + r[:100])
+                if "setfield" in selfv.replace(f"setfield(runner, {fld['reader']},", ""):
+                    ob.fail("violation", "end of input changes the counters")
+        missing = {"standard", "projected", "skipped", "strict", "error", "done"} - set(kinds)
+        if missing:
+            ob.fail("inconclusive", f"outcomes not found on any path: {sorted(missing)}")
+        ob.d["nonvacuous"] = not missing
+        ob.d["queries"] += len(paths)
+        # handle_skipped_site: strict -> Err naming contig:position, state unchanged; else skipped + 1
+        h = mir.find_fn(fns, r"create/runner\.rs>::handle_skipped_site$")
+        hp = mir.Exec(h, [], max_paths=2000).run({"_1": ("ref", "$self"), "$self": V("runner", "U")})
+        seen = set()
+        for p in hp:
+            if p.end != "return":
+                continue
+            strict = None
+            for t, c in p.state.pc:
+                if show(t) == f"field(runner, {fld['strict']})":
+                    strict = not (c[0] == "eq" and c[1] in ("0", "false"))
+            selfv = show(p.state.env["$self"])
+            r = show(p.ret)
+            ev = " ".join(e[0] for e in p.state.events)
+            if strict is None:
+                ob.fail("inconclusive", "handle_skipped_site: strict flag not on the path")
+            elif strict:
+                seen.add("strict")
+                if not r.endswith("::Err(move _7)") and "Err(" not in r:
+                    ob.fail("violation", "strict mode does not return an error: " + r[:100])
+                if selfv != "runner":
+                    ob.fail("violation", "strict mode changes the counters before failing")
+                if "current_contig" not in ev or "current_position" not in ev:
+                    ob.fail("violation", "strict-mode error does not use the current contig/position")
+            else:
+                seen.add("lenient")
+                if selfv != f"setfield(runner, {K}, Add(field(runner, {K}), 1))" or "Ok(" not in r:
+                    ob.fail("violation", "non-strict skip is not `skipped += 1; Ok(())`: " + selfv[:120])
+        if seen != {"strict", "lenient"}:
+            ob.fail("inconclusive", "handle_skipped_site: strict / lenient paths not both found")
+    except (LookupError, ValueError, RuntimeError, KeyError, IndexError) as e:
+        ob.fail("inconclusive", f"translator: {type(e).__name__}: {e}")
+    return [ob.done()]
+
+
+def task_create_run(scratch, tier, seed, logdir):
+    """C01 / C10: precision 0 unless projecting; the spectrum is written only after Runner::run returned Ok."""
+    fns = fns_for(scratch, "sfs-cli")
+    ob = Ob("create_run", ["create::Create::run"], "every acyclic path of Create::run; calls uninterpreted")
+    try:
+        fld = struct_fields(os.path.join(scratch.src, "cli/src/create.rs"), "Create")
+        f = mir.find_fn(fns, r"create\.rs>::run$", params=["Create"])
+        paths = mir.Exec(f, [], max_paths=5000).run({"_1": V("create", "U")})
+        nw = 0
+        for p in paths:
+            if p.end != "return":
+                continue
+            w = calls(p, r"write_to_stdout|write_to_path")
+            names = [e[0] for e in p.state.events]
+            if w:
+                nw += 1
+                runs = [i for i, n in enumerate(names) if re.search(r"runner::Runner::run$", n)]
+                wi = [i for i, n in enumerate(names) if re.search(r"write_to_stdout|write_to_path", n)][0]
+                if not runs or runs[0] > wi:
+                    ob.fail("violation", "the spectrum is written before the input was read completely")
+                # the Ok branch of Runner::run dominates the write
+                okb = [c for t, c in p.state.pc if "runner::Runner::run(" in show(t) and show(t).startswith("discriminant(")]
+                if not okb or okb[0] != ("eq", "0"):
+                    ob.fail("violation", "the writer is reachable without Runner::run having returned Ok")
+                wa = show(w[0][1][0])
+                if not re.search(rf"set_precision\(.*map_or::<usize.*\(Option::<.*as_ref\(refto\(field\(create, {fld['project']}\)\)\), 0, ", wa):
+                    ob.fail("violation", "precision is not `project.as_ref().map_or(0, ..)` (0 without projection): " + wa[:250])
+                sp = unq(w[0][1][1]) if len(w[0][1]) > 1 else None
+                if sp is None or not re.search(r"runner::Runner::run", show(sp)):
+                    ob.fail("violation", "what is written is not the result of Runner::run")
+                strict = [e for e in p.state.events if re.search(r"Runner::new$", e[0])]
+                if not strict or f"field(create, {fld['strict']})" not in show(strict[0][1][1]):
+                    ob.fail("violation", "Runner is not built with the --strict flag")
+            else:
+                if not [n for n in names if "from_residual" in n]:
+                    ob.fail("violation", "a path returns without output and without an error")
+        # closure of map_or: |_| self.precision
+        cl = [x for x in fns if re.search(r"create\.rs>::run::\{closure#0\}$", mir.norm_name(x.name))]
+        okc = False
+        for c in cl:
+            for cp in mir.Exec(c, []).run({"_1": V("captures", "U"), "_2": V("p", "U")}):
+                if cp.end == "return" and show(cp.ret) in ("deref(field(captures, 0))",):
+                    okc = True
+        if not okc:
+            ob.fail("violation" if cl else "inconclusive", "with projection the precision is not the --precision value")
+        ob.d["nonvacuous"] = nw > 0
+        ob.d["queries"] += len(paths)
+    except (LookupError, ValueError, RuntimeError, KeyError, IndexError) as e:
+        ob.fail("inconclusive", f"translator: {type(e).__name__}: {e}")
+    return [ob.done()]
+
+
+STAT_METHOD = {"DFuLi": ("d_fu_li", False), "DTajima": ("d_tajima", False), "F2": ("f2", True), "F3": ("f3", True), "F4": ("f4", True),
+               "Fst": ("fst", True), "King": ("king", False), "Pi": ("pi", False), "PiXY": ("pi_xy", False), "R0": ("r0", False),
+               "R1": ("r1", False), "S": ("segregating_sites", False), "Sum": ("sum", False), "Theta": ("theta_watterson", False)}
+
+
+def task_stat_calculate(scratch, tier, seed, logdir):
+    """C06 / C14: each statistic name calls the method it names; f2/f3/f4/fst on the normalised spectrum, the rest on the counts."""
+    fns = fns_for(scratch, "sfs-cli")
+    ob = Ob("stat_calculate", ["stat::Statistic::calculate"], "all 14 statistics")
+    try:
+        variants = enum_variants(os.path.join(scratch.src, "cli/src/stat.rs"), "Statistic")
+        f = mir.find_fn(fns, r"stat\.rs>::calculate$")
+        paths = mir.Exec(f, [], max_paths=2000).run({"_1": V("stat", "U"), "_2": ("ref", "$scs"), "$scs": V("scs", "U")})
+        seen = set()
+        for p in paths:
+            if p.end != "return":
+                continue
+            d = [c for t, c in p.state.pc if show(t) == "discriminant(stat)"]
+            if not d or d[0][0] != "eq":
+                continue
+            v = variants[int(d[0][1])]
+            meth, norm = STAT_METHOD[v]
+            names = [e[0] for e in p.state.events]
+            called = [n for n in names if re.search(r"Spectrum::<\w+>::\w+$", n) and not n.endswith("into_normalized")]
+            if len(called) != 1 or not called[0].endswith("::" + meth):
+                ob.fail("violation", f"`{v}` does not compute Spectrum::{meth}: {called}")
+                continue
+            e = [e for e in p.state.events if e[0] == called[0]][0]
+            arg = show(e[1][0])
+            if norm:
+                if not re.fullmatch(r"Spectrum::<Counts>::into_normalized\(<Spectrum<Counts> as Clone>::clone\(scs\)\)", arg):
+                    ob.fail("violation", f"`{v}` is not computed on the normalised spectrum: {arg[:120]}")
+            elif arg != "scs":
+                ob.fail("violation", f"`{v}` is not computed on the spectrum as read: {arg[:120]}")
+            if not [n for n in names if "from_residual" in n]:
+                r = show(unq(p.ret))
+                if called[0] not in r:
+                    ob.fail("violation", f"`{v}` returns something else than the statistic: {r[:120]}")
+            seen.add(v)
+        if set(variants) - seen:
+            ob.fail("inconclusive", f"statistics without a path: {sorted(set(variants) - seen)}")
+        ob.d["nonvacuous"] = len(seen) == 14
+        ob.d["queries"] += len(paths)
+    except (LookupError, ValueError, RuntimeError, KeyError, IndexError) as e:
+        ob.fail("inconclusive", f"translator: {type(e).__name__}: {e}")
+    return [ob.done()]
+
+
+def task_fold_run(scratch, tier, seed, logdir):
+    """C05: Fold::run writes fold().into_spectrum(f64::from(fill)) of what it read; Fill -> NaN / 0 / -1 / +inf."""
+    fns = fns_for(scratch, "sfs-cli")
+    ob = Ob("fold_run", ["fold::Fold::run", "impl From<Fill> for f64"], "all four fill values; every path of Fold::run")
+    try:
+        variants = enum_variants(os.path.join(scratch.src, "cli/src/fold.rs"), "Fill")
+        want = {"Nan": "NAN", "Zero": "0.0", "MinusOne": "-1.0", "Inf": "INFINITY"}
+        f = mir.find_fn(fns, r"fold\.rs>::from$", params=["Fill"])
+        seen = set()
+        for p in mir.Exec(f, []).run({"_1": V("fill", "U")}):
+            if p.end != "return":
+                continue
+            d = [c for t, c in p.state.pc if show(t) == "discriminant(fill)"][0]
+            v = variants[int(d[1])]
+            r = show(p.ret)
+            seen.add(v)
+            if not (r == want[v] or r.endswith("::" + want[v])):
+                ob.fail("violation", f"Fill::{v} converts to {r}, expected {want[v]}")
+            if v == "Inf" and "NEG" in r:
+                ob.fail("violation", "Fill::Inf is not +inf")
+        if seen != set(variants) or len(variants) != 4:
+            ob.fail("inconclusive", f"fill variants seen: {sorted(seen)}")
+        g = mir.find_fn(fns, r"fold\.rs>::run$", params=["Fold"])
+        fld = struct_fields(os.path.join(scratch.src, "cli/src/fold.rs"), "Fold")
+        nw = 0
+        for p in mir.Exec(g, [], max_paths=2000).run({"_1": V("fold", "U")}):
+            if p.end != "return":
+                continue
+            w = calls(p, r"write_to_path_or_stdout")
+            if not w:
+                continue
+            nw += 1
+            t = show(unq(w[0][1][2]))
+            if not re.fullmatch(rf"Folded::<Counts>::into_spectrum\((?:refto\()?Spectrum::<Counts>::fold\((?:refto\()?[\w:]*read::Builder::read\(.*\)\)+, <f64 as From<(?:fold::)?Fill>>::from\(field\(fold, {fld['fill']}\)\)\)", t):
+                ob.fail("violation", "what Fold::run writes is not read().fold().into_spectrum(f64::from(fill)): " + t[:250])
+            wa = show(w[0][1][0])
+            if f"field(fold, {fld['precision']})" not in wa:
+                ob.fail("violation", "the writer does not get --precision")
+        ob.d["nonvacuous"] = nw > 0 and len(seen) == 4
+    except (LookupError, ValueError, RuntimeError, KeyError, IndexError) as e:
+        ob.fail("inconclusive", f"translator: {type(e).__name__}: {e}")
+    return [ob.done()]
+
+
+def task_read_array_wiring(scratch, tier, seed, logdir):
+    """C16 / C15: read_array = Header::read? ; fortran -> Err ; descr.read(same reader)? ; Array::new(values, Shape(dict.shape)) mapped to InvalidData."""
+    fns = fns_for(scratch, "sfs-core")
+    ob = Ob("read_array_wiring", ["array::npy::read_array"], "every path of read_array; calls uninterpreted")
+    try:
+        f = mir.find_fn(fns, r"^npy::read_array$")
+        paths = mir.Exec(f, [], max_paths=2000).run({"_1": ("ref", "$r"), "$r": V("reader", "U")})
+        oks = 0
+        for p in paths:
+            if p.end != "return":
+                continue
+            names = [e[0] for e in p.state.events]
+            r = show(p.ret)
+            is_ok_path = any(re.search(r"Array::<f64>::new", n) for n in names)
+            fortran = [c for t, c in p.state.pc if "fortran" in show(t) or re.search(r"field\(field\(.*Header::read.*, 1\), 1\)", show(t))]
+            if is_ok_path:
+                oks += 1
+                i_h = [i for i, n in enumerate(names) if re.search(r"Header::read", n)]
+                i_v = [i for i, n in enumerate(names) if re.search(r"TypeDescriptor::read", n)]
+                i_n = [i for i, n in enumerate(names) if re.search(r"Array::<f64>::new", n)]
+                if not (i_h and i_v and i_n and i_h[0] < i_v[0] < i_n[0]):
+                    ob.fail("violation", "read_array does not do header -> values -> Array::new in this order")
+                    continue
+                hv = p.state.events[i_v[0]]
+                if "Header::read" not in show(hv[1][1]) and "reader" not in show(hv[1][1]):
+                    ob.fail("violation", "the value loop does not continue on the reader the header was read from")
+                nv = p.state.events[i_n[0]]
+                vals, shape = show(unq(nv[1][0])), show(nv[1][1])
+                if "TypeDescriptor::read" not in vals:
+                    ob.fail("violation", "Array::new is not given the values that were read")
+                if not re.fullmatch(r"ctor:Shape\(field\(field\(.*Header::read.*, 1\), 2\)\)", show(unq(nv[1][1]))):
+                    ob.fail("violation", "Array::new is not given the shape of the header dict: " + shape[:160])
+                if "map_err" not in r or "Array::<f64>::new" not in r:
+                    ob.fail("violation", "the result is not Array::new(..).map_err(InvalidData): " + r[:160])
+            else:
+                if not (r.startswith("ctor:Err(") or "from_residual" in r):
+                    ob.fail("violation", "a path without Array::new does not return an error: " + r[:160])
+        if oks == 0:
+            ob.fail("inconclusive", "no path constructs the array")
+        ob.d["nonvacuous"] = oks > 0
+        ob.d["queries"] += len(paths)
+    except (LookupError, ValueError, RuntimeError, KeyError, IndexError) as e:
+        ob.fail("inconclusive", f"translator: {type(e).__name__}: {e}")
+    return [ob.done()]
+
+
+def task_main_exit(scratch, tier, seed, logdir):
+    """C10 / C16 / C17: main maps every Err of run() to a message on stderr and exit status 1."""
+    fns = fns_for(scratch, "sfs-cli")
+    ob = Ob("main_exit", ["sfs::main"], "both outcomes of Cli::run")
+    try:
+        f = mir.find_fn(fns, r"^main$")
+        paths = mir.Exec(f, [], max_paths=200).run({})
+        err = ok = 0
+        for p in paths:
+            names = [e[0] for e in p.state.events]
+            d = [c for t, c in p.state.pc if re.match(r"discriminant\(.*run\(", show(t))]
+            if not d:
+                continue
+            if d[0] == ("eq", "0"):
+                ok += 1
+                if any("exit" in n for n in names):
+                    ob.fail("violation", "successful runs call exit")
+            elif d[0] == ("eq", "1"):
+                err += 1
+                ex_ = [e for e in p.state.events if re.search(r"(^|::)exit$", e[0])]
+                pr = [n for n in names if "_eprint" in n]
+                if not ex_ or show(ex_[0][1][0]) != "1" or not pr:
+                    ob.fail("violation", "a failing run does not print to stderr and exit with status 1")
+                if pr and ex_ and names.index(pr[0]) > [i for i, n in enumerate(names) if re.search(r"(^|::)exit$", n)][0]:
+                    ob.fail("violation", "exit happens before the diagnostic is printed")
+        if not (ok and err):
+            ob.fail("inconclusive", "Ok / Err arms of main not found")
+        ob.d["nonvacuous"] = bool(ok and err)
+    except (LookupError, ValueError, RuntimeError, KeyError, IndexError) as e:
+        ob.fail("inconclusive", f"translator: {type(e).__name__}: {e}")
+    return [ob.done()]
+
+
+def task_shape_closures(scratch, tier, seed, logdir):
+    """C01 / C02 / C17: 1 + 2*size (sample::Map::shape) and 2*i + 1 (Project::shape)"""
+    fns = fns_for(scratch, "sfs-core")
+    out = []
+    for name, pat, want in (("sample_map_shape_closure", r"^input::sample::<impl [^>]*>::shape::\{closure#0\}$", "1+2*size"),
+                            ("project_individuals_closure", r"builder\.rs>::shape::\{closure#0\}$", "2*i+1")):
+        ob = Ob(name, [pat], "all population sizes / individual counts below 2^62 (beyond: overflow, reported under C17)")
+        try:
+            f = mir.find_fn(fns, pat)
+            unwrapped = V("size", "int")
+            models = [(r"Option::<&usize>::unwrap$|HashMap::.*::get", lambda ex, st, fn, a, ds: None)]
+            paths = [p for p in mir.Exec(f, []).run({"_1": ("ref", "$cl"), "$cl": V("captures", "U"), "_2": V("i", "int")}) if p.end == "return"]
+            if len(paths) != 1:
+                raise RuntimeError(f"{len(paths)} paths")
+            r = show(paths[0].ret)
+            if want == "2*i+1":
+                if r != "Add(Mul(2, i), 1)":
+                    ob.fail("violation", f"individuals -> shape is {r}, expected 2*i+1")
+            else:
+                if not re.fullmatch(r"Add\(1, (?:Mul|<usize as Mul<&usize>>::mul)\(2, (?:deref\()?Option::<&usize>::unwrap\(HashMap::<.*>::get::<.*>\(.*\)\)\)?\)\)", r):
+                    ob.fail("violation", f"axis length is {r[:160]}, expected 1 + 2 * size[id]")
+                if "ctor:Id(i)" not in r:
+                    ob.fail("violation", "the population size is not looked up by the axis' own id")
+            ob.d["nonvacuous"] = True
+            ob.d["queries"] += 1
+        except (LookupError, ValueError, RuntimeError, KeyError, IndexError) as e:
+            ob.fail("inconclusive", f"translator: {type(e).__name__}: {e}")
+        out.append(ob.done())
+    return out
 
 
 TASKS = {
@@ -512,6 +1019,14 @@ TASKS = {
     "theta_weights": task_theta_weights,
     "header_write_padding": task_header_write_padding,
     "view_pipeline": task_view_pipeline,
+    "view_mask_bounds": task_view_mask_empty,
+    "runner_step": task_runner_step,
+    "create_run": task_create_run,
+    "stat_calculate": task_stat_calculate,
+    "fold_run": task_fold_run,
+    "read_array_wiring": task_read_array_wiring,
+    "main_exit": task_main_exit,
+    "shape_closures": task_shape_closures,
 }
 
 
